@@ -277,7 +277,8 @@ class CCodeGenerator:
         mem = ()
         # Initialize the first field!
         field = ival.field
-        mem = mem + self.gen_global_ival(field.typ, ival.value)
+        if field is not None:
+            mem = mem + self.gen_global_ival(field.typ, ival.value)
         size = self.sizeof(typ)
         filling = size - self.mem_len(mem)
         assert filling >= 0
@@ -907,6 +908,10 @@ class CCodeGenerator:
         # Initialize the selected field, that is the first one when not
         # designated. A union has the size of its largest member.
         field = expr.field
+        if field is None:
+            # Empty braces, no member has an initializer.
+            self.gen_local_zero(ptr, typ)
+            return
         if self.sizeof(field.typ) < self.sizeof(typ):
             self.gen_local_zero(ptr, typ)
         self.gen_local_init(ptr, field.typ, expr.value)
